@@ -71,6 +71,31 @@ def snapshot():
 
 
 viol = []
+
+
+class Base2(P.Rule):
+    pass
+
+
+Base2.create('own-rule = "base2"')
+Base2.create('shared-name = "from-base2"')
+
+
+class Derived(Base2):
+    """a grammar class derived from another grammar class: still resolves names to its own rules or the
+    core rules, never to Base2's"""
+
+
+Derived.create('d-one = 2DIGIT ALPHA SP')
+for nm, probe in (("DIGIT", "7"), ("ALPHA", "q"), ("SP", " "), ("CRLF", "\r\n")):
+    if ends(Derived(nm), probe) != ends(P.Rule(nm), probe) or Derived(nm) is not P.Rule(nm):
+        viol.append(f"derived class does not resolve {nm} to the core rule")
+if ends(Derived("d-one"), "12x ") != [4]:
+    viol.append("derived class: rule using core rules misbehaves: %r" % (ends(Derived("d-one"), "12x "),))
+_sn = Derived("shared-name")
+own = [k[0].__name__ for k, v in list(P.Rule._obj_map.items()) if v is _sn]
+if "Base2" in own or ends(Derived("shared-name"), "from-base2") != "gerr":
+    viol.append("derived class resolves 'shared-name' to its parent grammar class's rule")
 before = snapshot()
 
 
